@@ -18,6 +18,23 @@ fn accepts(s: &str) -> Result<bool, String> {
     guard(|| Address::from_str(s).is_ok() || NETS.iter().any(|p| Address::parse_with_params(s, p).is_ok()))
 }
 
+thread_local! {
+    static GENUINE: std::cell::RefCell<String> = std::cell::RefCell::new(String::new());
+}
+
+/// History: the genuine address is parsed successfully on this thread immediately before every corrupted candidate
+/// (the order in which a wallet sees them: the pasted original, then the mistyped copy). A parser that remembers
+/// anything about its previous success must still reject the corruption.
+fn accepts_after_genuine(t: &str) -> Result<bool, String> {
+    GENUINE.with(|g| {
+        let g = g.borrow();
+        if !g.is_empty() {
+            let _ = guard(|| Address::from_str(&g).is_ok());
+        }
+    });
+    accepts(t)
+}
+
 fn explore(r: &Report, s: &str, label: &str) {
     r.eval(1);
     r.state(1);
@@ -35,6 +52,7 @@ fn explore(r: &Report, s: &str, label: &str) {
     let tried = AtomicU64::new(0);
     // singles + doubles, parallel over the first position
     (0..l).into_par_iter().for_each(|a| {
+        GENUINE.with(|g| *g.borrow_mut() = s.to_string());
         let mut buf = base.clone();
         let pa = data_pos[a];
         let oa = base[pa];
@@ -48,7 +66,7 @@ fn explore(r: &Report, s: &str, label: &str) {
             {
                 let t = std::str::from_utf8(&buf).unwrap();
                 local += 1;
-                match accepts(t) {
+                match accepts_after_genuine(t) {
                     Ok(false) => {}
                     Ok(true) => {
                         accepted.fetch_add(1, Ordering::Relaxed);
@@ -67,7 +85,7 @@ fn explore(r: &Report, s: &str, label: &str) {
                     buf[pb] = cb;
                     let t = std::str::from_utf8(&buf).unwrap();
                     local += 1;
-                    match accepts(t) {
+                    match accepts_after_genuine(t) {
                         Ok(false) => {}
                         Ok(true) => {
                             accepted.fetch_add(1, Ordering::Relaxed);
@@ -82,6 +100,7 @@ fn explore(r: &Report, s: &str, label: &str) {
         tried.fetch_add(local, Ordering::Relaxed);
     });
     // HRP substitutions
+    GENUINE.with(|g| *g.borrow_mut() = s.to_string());
     let alnum: Vec<u8> = (b'a'..=b'z').chain(b'0'..=b'9').chain(b'A'..=b'Z').collect();
     let mut hrp_tried = 0u64;
     for a in 0..sep {
@@ -94,7 +113,7 @@ fn explore(r: &Report, s: &str, label: &str) {
             let mut try_one = |buf: &[u8], what: &str| {
                 let t = std::str::from_utf8(buf).unwrap();
                 hrp_tried += 1;
-                match accepts(t) {
+                match accepts_after_genuine(t) {
                     Ok(false) => {}
                     Ok(true) => r.violation(format!("hrp-substitution-accepted/{}", label), json!({"original": s, "corrupted": t}), what.to_string()),
                     Err(p) => r.violation(format!("panic/{}", label), json!({"original": s, "corrupted": t}), p),
@@ -189,7 +208,7 @@ pub fn run(r: &Report) {
 
 pub fn replay(case: &Value) -> String {
     let t = case["corrupted"].as_str().unwrap_or("");
-    match accepts(t) {
+    match accepts_after_genuine(t) {
         Ok(true) => format!("VIOLATES corrupted string {} parses (original {})", t, case["original"]),
         Ok(false) => "HOLDS rejected".into(),
         Err(p) => format!("VIOLATES panic {}", p),
